@@ -66,6 +66,9 @@ pub fn err_code(e: &io::Error) -> String {
         "kext".into()
     } else if msg.contains("number of fixed commitments") {
         "count".into()
+    } else if msg.contains("unexpected number or length of") {
+        // ProvingKey::read / permutation::ProvingKey::read: polynomial lists that do not fit
+        "shape".into()
     } else {
         "point".into()
     }
